@@ -1088,6 +1088,57 @@ func ruleR1_6(r *Run) {
 	}
 	r.check(marks && rec && parents, "invalidateAncestors:marks-all-ancestors",
 		"sets invalid=true on candidate entries of every parent and recurses", fmt.Sprintf("invalidateAncestors no longer marks (%v) / recurses (%v) / enumerates parents (%v)", marks, rec, parents), w.fpos(inv))
+	// the walk continues above a parent whether or not that parent has an entry (only an entry that
+	// is already marked may cut the walk: its ancestors were marked when it was)
+	var okV, nodeV ssa.Value
+	for _, b := range inv.Blocks {
+		for _, in := range b.Instrs {
+			if ex, ok := in.(*ssa.Extract); ok {
+				if lk, ok := ex.Tuple.(*ssa.Lookup); ok && lk.CommaOk && lk.X == ssa.Value(inv.Params[1]) {
+					if ex.Index == 1 {
+						okV = ex
+					} else {
+						nodeV = ex
+					}
+				}
+			}
+		}
+	}
+	if okV == nil || nodeV == nil {
+		r.undecided("invalidateAncestors:walk", "cannot find the candidate lookup kvv[parent]")
+		return
+	}
+	for _, tc := range []struct {
+		name           string
+		found, invalid bool
+	}{{"parent-without-entry", false, false}, {"parent-with-live-entry", true, false}} {
+		env := &AEnv{Atom: func(v ssa.Value) (AVal, bool) {
+			if v == okV {
+				return aBool(tc.found), true
+			}
+			if isFieldReadOfValue(v, "invalid", nodeV, inv) {
+				return aBool(tc.invalid), true
+			}
+			return unknown, false
+		}}
+		s := runSCCP(inv, env)
+		recReach, markReach := false, false
+		s.eachFeasible(func(in ssa.Instruction) {
+			if c, ok := in.(ssa.CallInstruction); ok && c.Common().StaticCallee() == inv {
+				recReach = true
+			}
+			if st, ok := in.(*ssa.Store); ok {
+				if fa, ok := st.Addr.(*ssa.FieldAddr); ok {
+					if name, _, _ := fieldName(fa); name == "invalid" {
+						markReach = true
+					}
+				}
+			}
+		})
+		r.check(recReach && (markReach || !tc.found), "invalidateAncestors:"+tc.name+":walk-continues",
+			"the entry (if any) is marked and the walk recurses above this parent",
+			fmt.Sprintf("for a %s the supersession walk stops (recursion reachable=%v, mark reachable=%v): older entries further up the lineage stay live and a merge sees two candidates", tc.name, recReach, markReach), w.fpos(inv))
+	}
 }
 
 // isFieldReadOfValue: v reads field `field` of the struct value `base` (directly, or through the
